@@ -323,6 +323,309 @@ theorem C18_mode_pinned_witness :
       remapEntries {} (some (Str.ofString "create")) files (Str.ofString "Linux") [d1, d2] = some [d2] := by
   decide
 
+/-- **D59, pinned tree (negation witness):** `remapEntries()` without a mapping argument merged the rules of
+`manifest.remap` into its shared default argument.  After a first call that read `afw:1.0 5.0`, a second call on
+another manifest, whose `manifest.remap` names nothing, still replaced `afw 1.0` by `afw 5.0`; the repaired call
+(fresh default per call) leaves the manifest alone. -/
+theorem C18_default_mapping_pinned_witness :
+    let d1 : Dep := { product := Str.ofString "afw", version := Str.ofString "1.0", flavor := none, tablefile := none,
+                      instDir := none, distId := none }
+    let d2 : Dep := { product := Str.ofString "python", version := Str.ofString "2.6", flavor := none, tablefile := none,
+                      instDir := none, distId := none }
+    let fl := Str.ofString "Linux"
+    let first := remapEntriesDefaultPinned {} none [[Str.ofString "afw:1.0   5.0"]] fl [d1]
+    (first.bind fun r => (remapEntriesDefaultPinned r.2 none [[Str.ofString "# nothing to remap"]] fl [d1, d2]).map
+        fun x => x.1.map fun d => (d.product, d.version)) =
+        some [(Str.ofString "afw", Str.ofString "5.0"), (Str.ofString "python", Str.ofString "2.6")] ∧
+      remapEntries {} none [[Str.ofString "# nothing to remap"]] fl [d1, d2] = some [d1, d2] := by
+  decide
+
+/-! ## a manifest as a live object: install order under `reverse`, `roll`, `getDependency` -/
+
+theorem rollRight1_rollLeft1 {α : Type} (l : List α) : rollRight1 (rollLeft1 l) = l := by
+  cases l with
+  | nil => rfl
+  | cons x r => simp [rollLeft1, rollRight1]
+
+theorem iter_succ_right {α : Type} (f : α → α) (k : Nat) (x : α) : iter f (k + 1) x = f (iter f k x) := by
+  induction k generalizing x with
+  | zero => rfl
+  | succ k ih => rw [iter, ih (f x)]; rfl
+
+theorem iter_right_left {α : Type} (k : Nat) (l : List α) : iter rollRight1 k (iter rollLeft1 k l) = l := by
+  induction k generalizing l with
+  | zero => rfl
+  | succ k ih =>
+    rw [iter_succ_right rollLeft1 k l, iter, rollRight1_rollLeft1, ih]
+
+/-- **`reverse` twice restores the install order.** -/
+theorem C18_manifest_reverse_involutive (m : Manifest) : m.reverse.reverse = m := by
+  simp [Manifest.reverse]
+
+/-- **`roll(n)` followed by `roll(-n)` restores the install order** (every `n ≥ 0`, every manifest). -/
+theorem C18_manifest_roll_back (m : Manifest) (n : Nat) : (m.roll (n : Int)).roll (-(n : Int)) = m := by
+  cases n with
+  | zero => simp [Manifest.roll, rollList, iter]
+  | succ k =>
+    have h1 : ¬ (((k + 1 : Nat) : Int) < 0) := by omega
+    have h2 : (-((k + 1 : Nat) : Int)) < 0 := by omega
+    simp only [Manifest.roll, rollList, h1, h2, if_false, if_true, Int.natAbs_neg, Int.natAbs_natCast]
+    rw [iter_right_left]
+
+/-- `roll` keeps every entry: the rolled list is a permutation of the list (here: same length and same members) -/
+theorem C18_manifest_roll_keeps_entries (m : Manifest) (n : Int) (d : Dep) :
+    d ∈ (m.roll n).deps ↔ d ∈ m.deps := by
+  have hl : ∀ (l : List Dep), d ∈ rollLeft1 l ↔ d ∈ l := by
+    intro l; cases l with
+    | nil => rfl
+    | cons x r => simp [rollLeft1, or_comm]
+  have hr : ∀ (l : List Dep), d ∈ rollRight1 l ↔ d ∈ l := by
+    intro l
+    unfold rollRight1
+    cases h : l.reverse with
+    | nil => simp [List.reverse_eq_nil_iff.mp h]
+    | cons x r =>
+      have : l = r.reverse ++ [x] := by
+        have := congrArg List.reverse h; simpa using this
+      subst this
+      simp [or_comm]
+  have hit : ∀ (f : List Dep → List Dep), (∀ l, d ∈ f l ↔ d ∈ l) → ∀ k l, d ∈ iter f k l ↔ d ∈ l := by
+    intro f hf k
+    induction k with
+    | zero => intro l; rfl
+    | succ k ih => intro l; rw [iter, ih, hf]
+  simp only [Manifest.roll, rollList]
+  split
+  · exact hit _ hr _ _
+  · exact hit _ hl _ _
+
+/-- `getDependency(product)` with the default `which = -1` is the *last* entry of that product (install order) -/
+theorem C18_manifest_getDependency_last (m : Manifest) (p : Str) :
+    m.getDependency p none none (-1) = (m.deps.filter fun d => d.product == p).getLast? := by
+  unfold Manifest.getDependency
+  simp only [Option.isNone_none, Bool.true_or, Bool.and_true]
+  cases h : m.deps.filter (fun d => d.product == p) with
+  | nil => simp
+  | cons x r =>
+    have hn : ¬ ((-1 : Int) ≥ ((x :: r).length : Int)) := by simp; omega
+    have hn2 : ¬ ((-1 : Int) < -((x :: r).length : Int)) := by simp; omega
+    have hn3 : ¬ ((-1 : Int) ≥ 0) := by omega
+    simp only [List.isEmpty_cons, Bool.false_eq_true, false_or, hn, hn2, hn3, if_false]
+    have : (((x :: r).length : Int) + -1).toNat = (x :: r).length - 1 := by
+      simp only [List.length_cons]; omega
+    rw [this, List.getLast?_eq_getElem?]
+    simp
+
+/-- Non-vacuity: `[a, b, c, d]` rolled by 1 is `[b, c, d, a]`, by -1 `[d, a, b, c]`; two entries of `b`: the default
+`getDependency` is the later one, `which = 0` the earlier. -/
+example :
+    let dep := fun (p v : String) => mkDep (Str.ofString p) (Str.ofString v) none none none none false false []
+    let m : Manifest := { product := none, version := none, deps := [dep "a" "1", dep "b" "1", dep "c" "1", dep "b" "2"] }
+    (m.roll 1).deps.map (·.product) = ["b", "c", "b", "a"].map Str.ofString ∧
+      (m.roll (-1)).deps.map (·.product) = ["b", "a", "b", "c"].map Str.ofString ∧
+      (m.getDependency (Str.ofString "b") none none (-1)).map (·.version) = some (Str.ofString "2") ∧
+      (m.getDependency (Str.ofString "b") none none 0).map (·.version) = some (Str.ofString "1") ∧
+      m.getDependency (Str.ofString "b") none none 2 = none := by
+  decide
+
+/-! ## `Distrib._createDeps`: the dependency manifest is in install order -/
+
+/-- **The product being packaged comes last.**  Whatever the dependency list: when `_createDeps` succeeds, the last
+entry of the manifest is the top product itself (it is added first and `roll()` takes it to the end), and the entries
+before it are exactly the listed dependencies, deepest first. -/
+theorem C18_createdeps_top_last (top : Str × Str) (deps : List DepReq) (l : List (Str × Str × Bool))
+    (h : createDepsOrder top deps = some l) :
+    ∃ ds, listDeps (sortByDepth deps) = some ds ∧ l = ds ++ [(top.1, top.2, false)] := by
+  unfold createDepsOrder at h
+  cases hd : listDeps (sortByDepth deps) with
+  | none => simp [hd] at h
+  | some ds =>
+    simp only [hd, Option.map_some, Option.some.injEq] at h
+    refine ⟨ds, rfl, ?_⟩
+    rw [← h]
+    simp [rollList, iter, rollLeft1]
+
+/-- the sort by depth is the stable one: of two dependencies of equal depth the one `getDependentProducts` listed first
+stays first; a deeper one comes before a shallower one (on the example of a diamond with an optional leaf) -/
+example :
+    let d := fun (n : String) (depth : Nat) (opt : Bool) (found : Option String) =>
+      ({ name := Str.ofString n, version := Str.ofString "1", optional := opt, depth := depth, found := found.map Str.ofString } : DepReq)
+    createDepsOrder (Str.ofString "top", Str.ofString "1")
+        [d "a" 2 false (some "1"), d "b" 2 false (some "1"), d "c" 3 false (some "1.1"), d "ghost" 3 true none, d "d" 3 true (some "1")] =
+      some [(Str.ofString "c", Str.ofString "1.1", false), (Str.ofString "d", Str.ofString "1", true),
+            (Str.ofString "a", Str.ofString "1", false), (Str.ofString "b", Str.ofString "1", false),
+            (Str.ofString "top", Str.ofString "1", false)] ∧
+      createDepsOrder (Str.ofString "top", Str.ofString "1") [d "a" 2 false none] = none := by
+  decide
+
+/-! ## tag lists as live objects: `mergeProductList` -/
+
+/-- every listed product has its `[flavor, version, …]` record (what `addProduct` maintains) -/
+def WFList (t : TagList) : Prop := ∀ p ∈ t.products, ∃ fl ver ex, assocGet t.info p = some (fl :: ver :: ex)
+
+theorem addProduct_info_same (t : TagList) (p v : Str) (fl : Str) (ex : List Str) :
+    (t.addProduct p v (some fl) ex).getProductInfo p = some (fl :: v :: ex) := by
+  simp [TagList.addProduct, TagList.getProductInfo, assocGet_assocSet_same]
+
+theorem addProduct_info_other (t : TagList) (p v : Str) (fl : Option Str) (ex : List Str) (q : Str) (h : q ≠ p) :
+    (t.addProduct p v fl ex).getProductInfo q = t.getProductInfo q := by
+  simp [TagList.addProduct, TagList.getProductInfo, assocGet_assocSet_other _ _ _ _ h]
+
+/-- **`mergeProductList` takes the other list's entries and keeps the rest.**  For every list `t` and every
+well-formed list `o`: after `t.mergeProductList(o)` each product of `o` has, in `t`, exactly the record it has in `o`
+(flavor, version, extra words), and what `t` says about any other product is unchanged. -/
+theorem C18_taglist_merge (t o : TagList) (hwf : WFList o) (q : Str) :
+    (t.mergeProductList o).getProductInfo q =
+      if q ∈ o.products then o.getProductInfo q else t.getProductInfo q := by
+  unfold TagList.mergeProductList TagList.getProducts
+  have key : ∀ (ps : List Str) (t : TagList), (∀ p ∈ ps, ∃ fl ver ex, assocGet o.info p = some (fl :: ver :: ex)) →
+      ((ps.map fun p => p :: (assocGet o.info p).getD []).foldl (fun t row =>
+          match row with
+          | p :: fl :: ver :: extra => t.addProduct p ver (some fl) extra
+          | _ => t) t).getProductInfo q =
+        if q ∈ ps then o.getProductInfo q else t.getProductInfo q := by
+    intro ps
+    induction ps with
+    | nil => intro t _; simp
+    | cons p rest ih =>
+      intro t hps
+      obtain ⟨fl, ver, ex, hinfo⟩ := hps p (by simp)
+      simp only [List.map_cons, List.foldl_cons, hinfo, Option.getD_some]
+      rw [ih _ (fun r hr => hps r (by simp [hr]))]
+      by_cases hq : q ∈ rest
+      · simp [hq]
+      · by_cases hqp : q = p
+        · subst hqp
+          have h1 := addProduct_info_same t q ver fl ex
+          simp only [TagList.getProductInfo] at h1
+          simp [hq, TagList.getProductInfo, hinfo, h1]
+        · simp [hq, hqp, addProduct_info_other _ _ _ _ _ _ hqp]
+  exact key o.products t hwf
+
+/-- `addProduct` keeps a list well formed, so every list built by the API is -/
+theorem C18_taglist_wf_add (t : TagList) (h : WFList t) (p v : Str) (fl : Option Str) (ex : List Str) :
+    WFList (t.addProduct p v fl ex) := by
+  intro q hq
+  by_cases hqp : q = p
+  · subst hqp
+    exact ⟨fl.getD t.flavor, v, ex, by simp [TagList.addProduct, assocGet_assocSet_same]⟩
+  · have hq' : q ∈ t.products := by
+      simp only [TagList.addProduct] at hq
+      split at hq
+      · exact hq
+      · rcases List.mem_append.mp hq with h1 | h1
+        · exact h1
+        · simp at h1; exact absurd h1 hqp
+    obtain ⟨a, b, c, hi⟩ := h q hq'
+    exact ⟨a, b, c, by simp [TagList.addProduct, assocGet_assocSet_other _ _ _ _ hqp, hi]⟩
+
+/-- Non-vacuity: `afw` is updated from the other list, `python` comes in, `boost` stays. -/
+example :
+    let t := ((TagList.empty (Str.ofString "current") (some (Str.ofString "Linux"))).addProduct (Str.ofString "afw")
+      (Str.ofString "1.0") none []).addProduct (Str.ofString "boost") (Str.ofString "1.4") none []
+    let o := ((TagList.empty (Str.ofString "current") none).addProduct (Str.ofString "python")
+      (Str.ofString "2.6") (some (Str.ofString "Linux64")) [Str.ofString "x"]).addProduct (Str.ofString "afw") (Str.ofString "2.0") none []
+    (t.mergeProductList o).getProducts =
+      [[Str.ofString "afw", sGeneric, Str.ofString "2.0"], [Str.ofString "boost", Str.ofString "Linux", Str.ofString "1.4"],
+       [Str.ofString "python", Str.ofString "Linux64", Str.ofString "2.6", Str.ofString "x"]] := by
+  decide
+
+/-! ## the `dummy` branch of `remapEntries` -/
+
+/-- an entry that makes `remapEntries` look for (and, if it is missing, declare) the product `pn` in version `dummy`:
+the mapping changes the entry, and the new version is the word `dummy` -/
+def DummyTrigger (m : Mapping) (fl : Str) (d : Dep) (pn : Str) : Prop :=
+  m.apply d.product d.version fl = (pn, some sDummy) ∧ (pn, sDummy) ≠ (d.product, d.version)
+
+/-- **`remapEntries` declares exactly the missing `dummy` products its table names.**  For every mapping, flavor,
+set of already declared `dummy` products and manifest: a product is declared iff it was not declared before and
+some entry of the manifest is changed by the mapping into that product at version `dummy`; entries deleted, left
+alone, changed into another version, or already at that `product dummy` declare nothing, and neither does a name
+that `Eups.declare` refuses (`legalName`). -/
+theorem C18_dummy_declares_exact (m : Mapping) (fl : Str) (deps : List Dep) : ∀ (known : List Str) (pn : Str),
+    pn ∈ dummyDeclares m fl known deps ↔ pn ∉ known ∧ legalName pn = true ∧ ∃ d ∈ deps, DummyTrigger m fl d pn := by
+  induction deps with
+  | nil => intro known pn; simp [dummyDeclares]
+  | cons d rest ih =>
+    intro known pn
+    unfold dummyDeclares
+    rcases hr : m.apply d.product d.version fl with ⟨qn, _ | vn⟩
+    · -- deleted
+      simp only [ih known pn, List.mem_cons, exists_eq_or_imp]
+      constructor
+      · rintro ⟨h1, hl, h2⟩; exact ⟨h1, hl, Or.inr h2⟩
+      · rintro ⟨h1, hl, h2 | h2⟩
+        · exact absurd h2.1 (by rw [hr]; simp)
+        · exact ⟨h1, hl, h2⟩
+    · by_cases hc : ((qn, vn) != (d.product, d.version) && vn == sDummy && !known.contains qn && legalName qn) = true
+      · simp only [hc, if_true, List.mem_cons, ih (known ++ [qn]) pn, exists_eq_or_imp]
+        simp only [Bool.and_eq_true, bne_iff_ne, ne_eq, beq_iff_eq, Bool.not_eq_true', List.contains_eq_mem,
+          decide_eq_false_iff_not] at hc
+        obtain ⟨⟨⟨hne, hv⟩, hk⟩, hleg⟩ := hc
+        subst hv
+        have htrig : DummyTrigger m fl d qn := ⟨hr, hne⟩
+        constructor
+        · rintro (h | ⟨h1, hl, h2⟩)
+          · subst h; exact ⟨hk, hleg, Or.inl htrig⟩
+          · exact ⟨fun hm => h1 (by simp [hm]), hl, Or.inr h2⟩
+        · rintro ⟨h1, hl, h2 | h2⟩
+          · left
+            have := h2.1; rw [hr] at this
+            exact (Prod.mk.inj this).1.symm
+          · by_cases he : pn = qn
+            · left; exact he
+            · right; exact ⟨by simpa [he] using h1, hl, h2⟩
+      · have hc' : ((qn, vn) != (d.product, d.version) && vn == sDummy && !known.contains qn && legalName qn) = false := by
+          simpa using hc
+        simp only [hc', Bool.false_eq_true, if_false, ih known pn, List.mem_cons, exists_eq_or_imp]
+        constructor
+        · rintro ⟨h1, hl, h2⟩; exact ⟨h1, hl, Or.inr h2⟩
+        · rintro ⟨h1, hl, h2 | h2⟩
+          · exfalso
+            have h3 := h2.1; rw [hr] at h3
+            obtain ⟨e1, e2⟩ := Prod.mk.inj h3
+            have e2' : vn = sDummy := Option.some.inj e2
+            subst e1; subst e2'
+            have : ((qn, sDummy) != (d.product, d.version) && sDummy == sDummy && !known.contains qn && legalName qn) = true := by
+              simp only [Bool.and_eq_true, bne_iff_ne, ne_eq, beq_self_eq_true, Bool.not_eq_true', List.contains_eq_mem,
+                decide_eq_false_iff_not, and_true]
+              exact ⟨⟨h2.2, h1⟩, hl⟩
+            rw [this] at hc'; cases hc'
+          · exact ⟨h1, hl, h2⟩
+
+/-- no product is declared twice in one call -/
+theorem C18_dummy_declares_nodup (m : Mapping) (fl : Str) (deps : List Dep) : ∀ known : List Str,
+    (dummyDeclares m fl known deps).Nodup := by
+  induction deps with
+  | nil => intro _; simp [dummyDeclares]
+  | cons d rest ih =>
+    intro known
+    unfold dummyDeclares
+    rcases hr : m.apply d.product d.version fl with ⟨qn, _ | vn⟩
+    · exact ih known
+    · simp only
+      split
+      · refine List.nodup_cons.mpr ⟨?_, ih _⟩
+        intro hmem
+        have := (C18_dummy_declares_exact m fl rest (known ++ [qn]) qn).mp hmem
+        exact this.1 (by simp)
+      · exact ih known
+
+/-- Non-vacuity (the example of the code's own documentation): `tcltk:any -> dummy:1.0` does not trigger the branch
+(the version is `1.0`), `tcltk:any -> tcltk:dummy` and `afw:1.0 -> stub:dummy` do; `stub` is declared once although
+two entries name it; a product already declared is not declared again. -/
+example :
+    let m := buildMapping false [
+      { inP := Str.ofString "tcltk", inV := sAny, outP := none, outV := some sDummy, flavor := sGeneric },
+      { inP := Str.ofString "afw", inV := Str.ofString "1.0", outP := some (Str.ofString "stub"), outV := some sDummy, flavor := sGeneric },
+      { inP := Str.ofString "utils", inV := sAny, outP := some (Str.ofString "stub"), outV := some sDummy, flavor := sGeneric },
+      { inP := Str.ofString "tk", inV := sAny, outP := some sDummy, outV := some (Str.ofString "1.0"), flavor := sGeneric }]
+    let dep := fun (p v : String) => mkDep (Str.ofString p) (Str.ofString v) none none none none false false []
+    let deps := [dep "tcltk" "8.5", dep "afw" "1.0", dep "utils" "2.0", dep "tk" "8.5", dep "python" "2.6"]
+    dummyDeclares m (Str.ofString "Linux") [] deps = [Str.ofString "tcltk", Str.ofString "stub"] ∧
+      dummyDeclares m (Str.ofString "Linux") [Str.ofString "stub"] deps = [Str.ofString "tcltk"] := by
+  decide
+
 /-! ## inverse -/
 
 /-- one-to-one: no two entries of the table (of one flavor) have the same image -/
@@ -374,6 +677,139 @@ example :
       { inP := [98], inV := [49], outP := some [99], outV := some [49], flavor := sGeneric }]).inverse.isNone = true := by
   decide
 
+/-- **C18, inverse, at the level of `Mapping.apply` (with the `generic` fallback in both directions).**  For a
+one-to-one mapping of explicit versions and *every* flavor `f`: each entry `p:v -> q:w` of the table of `f` that is
+not an identity is applied by `apply` — not only by the per-flavor look-up — and `inverse().apply` takes `q:w` back
+to `p:v`.  (An identity entry `p:v -> p:v` of a flavor table makes `apply` consult the `generic` table, in the
+mapping and in its inverse: `C18_inverse_identity_witness`.) -/
+theorem C18_inverse_apply (m : Mapping) (h1 : OneToOne m) (h2 : Explicit m) :
+    ∃ inv, m.inverse = some inv ∧
+      ∀ f p v q w, lk m.map f p v = some (q, some w) → (p, v) ≠ (q, w) →
+        m.apply p v f = (q, some w) ∧ inv.apply q w f = (p, some v) := by
+  obtain ⟨inv, hinv, h⟩ := C18_inverse m h1 h2
+  refine ⟨inv, hinv, ?_⟩
+  intro f p v q w hlk hne
+  obtain ⟨ha, hb⟩ := h f p v q w hlk
+  have hne1 : ((q, some w) : Str × Option Str) ≠ (p, some v) := by
+    intro e; apply hne; cases e; rfl
+  have hne2 : ((p, some v) : Str × Option Str) ≠ (q, some w) := fun e => hne1 e.symm
+  constructor
+  · unfold Mapping.apply
+    simp only [ha]
+    have : (((q, some w) : Str × Option Str) == (p, some v)) = false := by simpa using hne1
+    simp [this]
+  · unfold Mapping.apply
+    simp only [hb]
+    have : (((p, some v) : Str × Option Str) == (q, some w)) = false := by simpa using hne2
+    simp [this]
+
+/-- **C18, inverse, on a live mapping.**  `inverse()` is a function of the mapping as it is when it is called: after
+*any* sequence of `add` and `merge` operations on a mapping object — in particular after the rules of
+`manifest.remap` have been merged into a mapping whose inverse had been taken before (`Repository.create`) — the
+inverse taken *now* undoes the mapping as it is *now*, whenever that is one-to-one on explicit versions. -/
+theorem C18_inverse_live (ops : List MapOp) (m0 : Mapping)
+    (h1 : OneToOne (runOps ops m0)) (h2 : Explicit (runOps ops m0)) :
+    ∃ inv, (runOps ops m0).inverse = some inv ∧
+      ∀ f p v q w, lk (runOps ops m0).map f p v = some (q, some w) → (p, v) ≠ (q, w) →
+        (runOps ops m0).apply p v f = (q, some w) ∧ inv.apply q w f = (p, some v) :=
+  C18_inverse_apply (runOps ops m0) h1 h2
+
+/-- Non-vacuity: `a:1 -> b:4`, inverse taken, then `c:2 -> d:5` merged in: the second inverse knows both entries, the
+first one only the first. -/
+example :
+    let r1 : Rule := { inP := [97], inV := [49], outP := some [98], outV := some [52], flavor := sGeneric }
+    let r2 : Rule := { inP := [99], inV := [50], outP := some [100], outV := some [53], flavor := sGeneric }
+    let m1 := runOps [.add r1 true] {}
+    let m2 := runOps [.add r1 true, .merge (buildMapping false [r2]) false] {}
+    OneToOne m2 ∧ Explicit m2 ∧
+      (m1.inverse.map fun i => i.apply [100] [53] sGeneric) = some ([100], some [53]) ∧
+      (m2.inverse.map fun i => (i.apply [100] [53] sGeneric, i.apply [98] [52] sGeneric)) =
+        some (([99], some [50]), ([97], some [49])) := by
+  unfold OneToOne Explicit
+  decide
+
+/-- **The hypothesis "not an identity" is needed at the level of `apply` (negation witness).**  The `Linux` table
+holds the identity `a:1 -> a:1`, the `generic` table `c:3 -> a:1`: the mapping is one-to-one (per flavor, as
+`inverse()` tests it) and explicit, `inverse()` succeeds, `apply` leaves `a:1` alone under `Linux` — and the
+inverse's `apply` takes `a:1` to `c:3`, because the identity makes it fall through to the `generic` table. -/
+theorem C18_inverse_identity_witness :
+    let m := buildMapping false [
+      { inP := [97], inV := [49], outP := some [97], outV := some [49], flavor := Str.ofString "Linux" },
+      { inP := [99], inV := [51], outP := some [97], outV := some [49], flavor := sGeneric }]
+    OneToOne m ∧ Explicit m ∧ m.apply [97] [49] (Str.ofString "Linux") = ([97], some [49]) ∧
+      (m.inverse.map fun inv => inv.apply [97] [49] (Str.ofString "Linux")) = some ([99], some [51]) := by
+  unfold OneToOne Explicit
+  decide
+
+/-- **"One-to-one" is needed (negation witness):** two entries of one flavor with the same image — `inverse()`
+raises (`none`); with the second entry under another flavor the mapping is one-to-one per flavor and the inverse
+exists. -/
+theorem C18_inverse_needs_one_to_one :
+    let r1 : Rule := { inP := [97], inV := [49], outP := some [99], outV := some [49], flavor := sGeneric }
+    let r2 : Rule := { inP := [98], inV := [49], outP := some [99], outV := some [49], flavor := sGeneric }
+    ¬ OneToOne (buildMapping false [r1, r2]) ∧ Explicit (buildMapping false [r1, r2]) ∧
+      (buildMapping false [r1, r2]).inverse.isNone = true ∧
+      OneToOne (buildMapping false [r1, { r2 with flavor := Str.ofString "Linux" }]) ∧
+      (buildMapping false [r1, { r2 with flavor := Str.ofString "Linux" }]).inverse.isSome = true := by
+  unfold OneToOne Explicit
+  decide
+
+/-- no entry is a wildcard: every in-version is a version, not the word `any` -/
+def NoAny (m : Mapping) : Prop := ∀ e ∈ entries m.map, e.2.2.1 ≠ sAny
+
+/-- **C18, inverse, for every product and version (not only for the table's own keys).**  For a one-to-one mapping
+of explicit versions without wildcards, every flavor `f`, every product `p` and *every* version `v`: if the table of
+`f` changes `p:v` into `q:w`, the inverse's table of `f` changes `q:w` back into `p:v`. -/
+theorem C18_inverse_undoes_changes (m : Mapping) (h1 : OneToOne m) (h2 : Explicit m) (h3 : NoAny m) :
+    ∃ inv, m.inverse = some inv ∧
+      ∀ f p v q w, m.apply1 p v f = (q, some w) → (q, w) ≠ (p, v) → inv.apply1 q w f = (p, some v) := by
+  obtain ⟨inv, hinv, h⟩ := C18_inverse m h1 h2
+  refine ⟨inv, hinv, ?_⟩
+  intro f p v q w ha hne
+  rw [apply1_eq] at ha
+  cases hp : prodTable m.map f p with
+  | none =>
+    simp only [hp] at ha
+    exact absurd (by cases ha; rfl) hne
+  | some byV =>
+    simp only [hp] at ha
+    split at ha
+    · cases ha
+    · cases hv : assocGet byV v with
+      | some r =>
+        simp only [hv] at ha
+        have hlk : lk m.map f p v = some (q, some w) := by simp [lk, hp, hv, ha]
+        exact (h f p v q w hlk).2
+      | none =>
+        simp only [hv] at ha
+        cases hany : assocGet byV sAny with
+        | some r =>
+          exfalso
+          have hlk : lk m.map f p sAny = some (r.1, r.2) := by simp [lk, hp, hany]
+          exact h3 _ (mem_entries_of_lk m.map f p sAny r.1 r.2 hlk) rfl
+        | none =>
+          simp only [hany] at ha
+          exact absurd (by cases ha; rfl) hne
+
+/-- **"No wildcard" is needed (negation witness):** `a:any -> b:2` is one-to-one and explicit, `inverse()` succeeds,
+`apply` takes `a:1` to `b:2` — and the inverse takes `b:2` to `a:any`, not back to `a:1`. -/
+theorem C18_inverse_needs_no_any :
+    let m := buildMapping false [{ inP := [97], inV := sAny, outP := some [98], outV := some [50], flavor := sGeneric }]
+    OneToOne m ∧ Explicit m ∧ ¬ NoAny m ∧ m.apply [97] [49] sGeneric = ([98], some [50]) ∧
+      (m.inverse.map fun inv => inv.apply [98] [50] sGeneric) = some ([97], some sAny) := by
+  unfold OneToOne Explicit NoAny
+  decide
+
+/-- Non-vacuity of `C18_inverse_undoes_changes`: a chain and a version bump, no wildcard. -/
+example :
+    let m := buildMapping false [
+      { inP := [97], inV := [49], outP := some [98], outV := some [50], flavor := sGeneric },
+      { inP := [98], inV := [50], outP := some [99], outV := some [51], flavor := sGeneric },
+      { inP := [120], inV := Str.ofString "1.0", outP := none, outV := some (Str.ofString "2.0"), flavor := sGeneric }]
+    OneToOne m ∧ Explicit m ∧ NoAny m ∧ m.apply1 [97] [49] sGeneric = ([98], some [50]) := by
+  unfold OneToOne Explicit NoAny
+  decide
+
 /-! ## the server side: `DistribServer.getTaggedProductList` / `getTaggedProductInfo` and their cache -/
 
 /-- **The answers of a server object do not depend on what it was asked before.**  Whatever the files on the server
@@ -420,6 +856,128 @@ theorem C18_server_tag_only_witness :
       serve true files [] reqs =
         [Ans.products [[Str.ofString "boost", Str.ofString "Linux64", Str.ofString "2.0"]],
          Ans.products [[Str.ofString "boost", Str.ofString "Linux64", Str.ofString "2.0"]]] := by
+  decide
+
+/-! ## the server side: files handed out by `DistribServer.getFile` / `cacheFile` -/
+
+theorem mem_assocSet {β : Type} (l : List (Str × β)) (k : Str) (v : β) (x : Str × β) (h : x ∈ assocSet l k v) :
+    x = (k, v) ∨ x ∈ l := by
+  induction l with
+  | nil => simp [assocSet] at h; exact Or.inl h
+  | cons q r ih =>
+    obtain ⟨k', v'⟩ := q
+    by_cases hk : k' = k
+    · simp only [assocSet, hk, if_true, List.mem_cons] at h
+      rcases h with h | h
+      · exact Or.inl h
+      · exact Or.inr (by simp [h])
+    · simp only [assocSet, hk, if_false, List.mem_cons] at h
+      rcases h with h | h
+      · exact Or.inr (by simp [h])
+      · rcases ih h with h1 | h1
+        · exact Or.inl h1
+        · exact Or.inr (by simp [h1])
+
+theorem assocGet_none_not_mem {β : Type} (l : List (Str × β)) (k : Str) (h : assocGet l k = none) :
+    ∀ x ∈ l, x.1 ≠ k := by
+  induction l with
+  | nil => intro x hx; cases hx
+  | cons q r ih =>
+    obtain ⟨k', v'⟩ := q
+    by_cases hk : k' = k
+    · simp [assocGet, hk] at h
+    · simp only [assocGet, hk, if_false] at h
+      intro x hx
+      rcases List.mem_cons.mp hx with rfl | hx
+      · exact hk
+      · exact ih h x hx
+
+/-- what a fresh server object answers for a path -/
+def freshFile (server : List (Str × Str)) (path : Str) : FileAns :=
+  match assocGet server path with
+  | some c => .content c
+  | none => .notFound
+
+/-- the cache is sound: every source it knows is held, with the server's content, by the local file it names -/
+def CacheSound (server : List (Str × Str)) (s : FileSrv) : Prop :=
+  ∀ x ∈ s.cache, ∃ c, assocGet server x.1 = some c ∧ assocGet s.files x.2 = some c
+
+theorem getFile_sound (server : List (Str × Str)) (s : FileSrv) (path dest : Str) (h : CacheSound server s) :
+    (getFile false server s path dest).1 = freshFile server path ∧
+      CacheSound server (getFile false server s path dest).2 := by
+  have h1 : CacheSound server { s with cache := s.cache.filter fun p => !(p.2 == dest && p.1 != path) } := by
+    intro x hx
+    exact h x (List.mem_filter.mp hx).1
+  have hfil : ∀ x ∈ s.cache.filter (fun p => !(p.2 == dest && p.1 != path)), x.2 = dest → x.1 = path := by
+    intro x hx hd
+    have := (List.mem_filter.mp hx).2
+    simp only [hd, beq_self_eq_true, Bool.true_and, Bool.not_eq_true', bne_eq_false_iff_eq] at this
+    exact this
+  unfold getFile
+  simp only [Bool.false_eq_true, if_false]
+  cases hc : assocGet (s.cache.filter fun p => !(p.2 == dest && p.1 != path)) path with
+  | some f =>
+    have hmem := assocGet_mem _ path f hc
+    obtain ⟨c, hs, hf⟩ := h1 (path, f) hmem
+    by_cases hfd : f = dest
+    · subst hfd
+      simp only [beq_self_eq_true, if_true, Bool.false_eq_true, if_false]
+      exact ⟨by simp [hf, freshFile, hs], h1⟩
+    · have : (f == dest) = false := by simpa using hfd
+      simp only [this, Bool.false_eq_true, if_false]
+      refine ⟨by simp [hf, freshFile, hs], ?_⟩
+      intro x hx
+      obtain ⟨c', hs', hf'⟩ := h1 x hx
+      by_cases hxd : x.2 = dest
+      · have hxp := hfil x hx hxd
+        refine ⟨c, by rw [hxp]; exact hs, ?_⟩
+        simp [hxd, hf, assocGet_assocSet_same]
+      · exact ⟨c', hs', by simp only []; rw [assocGet_assocSet_other _ _ _ _ hxd]; exact hf'⟩
+  | none =>
+    simp only
+    cases hsrv : assocGet server path with
+    | none => exact ⟨by simp [freshFile, hsrv], h1⟩
+    | some c =>
+      refine ⟨by simp [freshFile, hsrv], ?_⟩
+      intro x hx
+      rcases mem_assocSet _ _ _ _ hx with rfl | hx'
+      · exact ⟨c, hsrv, by simp [assocGet_assocSet_same]⟩
+      · obtain ⟨c', hs', hf'⟩ := h1 x hx'
+        have hxp : x.1 ≠ path := assocGet_none_not_mem _ path hc x hx'
+        have hxd : x.2 ≠ dest := fun hd => hxp (hfil x hx' hd)
+        exact ⟨c', hs', by simp only []; rw [assocGet_assocSet_other _ _ _ _ hxd]; exact hf'⟩
+
+/-- **The file a server object hands out for a path holds what the server holds under that path — whatever was
+requested before and wherever the copies were put** (repaired `cacheFile`, D60): every answer of a history of
+`getFile(path, filename=dest)` requests, with destinations reused at will, is the answer of a fresh server object. -/
+theorem C18_server_file_history_independent (server : List (Str × Str)) (reqs : List (Str × Str)) :
+    getFiles false server {} reqs = reqs.map fun r => freshFile server r.1 := by
+  have key : ∀ (reqs : List (Str × Str)) (s : FileSrv), CacheSound server s →
+      getFiles false server s reqs = reqs.map fun r => freshFile server r.1 := by
+    intro reqs
+    induction reqs with
+    | nil => intro s _; rfl
+    | cons r rest ih =>
+      intro s hs
+      obtain ⟨p, d⟩ := r
+      have := getFile_sound server s p d hs
+      simp only [getFiles, List.map_cons, this.1, ih _ this.2]
+  exact key reqs {} (by intro x hx; cases hx)
+
+/-- **D60, pinned tree (negation witness):** `afw.table` fetched into a scratch file, `boost.table` fetched into the
+same scratch file, `afw.table` asked for again: the pinned cache hands out `boost.table`'s text; the same file asked
+for twice into one destination raises `SameFileError`. -/
+theorem C18_server_file_pinned_witness :
+    let server := [(Str.ofString "tables/afw.table", Str.ofString "A"), (Str.ofString "tables/boost.table", Str.ofString "B")]
+    let a := Str.ofString "tables/afw.table"
+    let b := Str.ofString "tables/boost.table"
+    getFiles true server {} [(a, Str.ofString "scratch"), (b, Str.ofString "scratch"), (a, Str.ofString "other")] =
+        [.content (Str.ofString "A"), .content (Str.ofString "B"), .content (Str.ofString "B")] ∧
+      getFiles true server {} [(a, Str.ofString "scratch"), (a, Str.ofString "scratch")] =
+        [.content (Str.ofString "A"), .sameFile] ∧
+      getFiles false server {} [(a, Str.ofString "scratch"), (b, Str.ofString "scratch"), (a, Str.ofString "other"),
+                                (a, Str.ofString "other")] =
+        [.content (Str.ofString "A"), .content (Str.ofString "B"), .content (Str.ofString "A"), .content (Str.ofString "A")] := by
   decide
 
 end EupsModel.C18
